@@ -70,6 +70,7 @@ def analyze(scenario, log):
     believes = collections.defaultdict(set)   # pid -> resources it acquired and was never told it lost (every return since was SUCCESS)
     pqvar = {}                                # (pid, variable) -> priority-queue handle last stored there
     ev_time, ev_wait = {}, {}                 # (owner, variable) -> time of the user event whose handle is there; pid -> awaited time
+    ended_holding_pool = [False] * 64
     intr_used = set()                         # (pid, index into notif[pid]) of interrupts already matched to a return
     dump = {}
     hist = {}
@@ -150,6 +151,8 @@ def analyze(scenario, log):
                 res_changes[r].append((t, 0))
                 on_res_freed(r, t)
         for pl in range(len(pool_exp)):
+            if pool_exp[pl][q] != 0 or q in pool_exp_unknown[pl]:
+                ended_holding_pool[pl] = True        # a process ended while (possibly) holding units of this pool
             pool_exp[pl][q] = 0
             pool_exp_unknown[pl].discard(q)
         for pl in range(len(pool_held)):
@@ -632,6 +635,10 @@ def analyze(scenario, log):
             held = [int(x) for x in d["held"].split(",")] if d.get("held") else []
             if sum(held) != int(d["inuse"]):
                 bad("C07", "pool %d: %d units in use but the processes hold %s (sum %d)" % (p, int(d["inuse"]), held, sum(held)))
+                if p < len(ended_holding_pool) and ended_holding_pool[p]:
+                    bad("C09", "pool %d: a process ended while holding units of it, and afterwards %d units are in use although the "
+                        "processes hold %s (sum %d): the pool did not get back exactly what the ended process held"
+                        % (p, int(d["inuse"]), held, sum(held)))
             if p < len(objs["pool"]) and int(d["inuse"]) > objs["pool"][p]:
                 bad("C07", "pool %d: %d units in use exceed the capacity %d" % (p, int(d["inuse"]), objs["pool"][p]))
             for q, hq in enumerate(held):
